@@ -12,8 +12,17 @@ package main
 //     -> txn err <unsupported|field|drift|...>
 //   range <key> <end> [limit=<int>] [rev=<int>] [flags=<c|k|s...>] [sort=<order>:<target>] [minmod= maxmod= mincreate= maxcreate=]
 //     -> range hdr=<rev> count=<n> more=<0|1> kvs=<k:v@mod,...|->     |  range err <class>
+//       byte strings are lower-case hex, `-` = the EMPTY string: `put:<key>:-` is a put WITHOUT a value (refused by
+//       backend.Create / Update since /repo f2a549c: `txn err other`, no revision consumed); a key / range_end may end
+//       in 00 (`<key>00` = "just after <key>": the continue key of a paginated list, the end of a single-key range);
+//       `range … rev=<n> flags=c` is a count_only at an explicit revision
 //   rev [want=<n>]                      -> rev <committed revision>
 //   watch <id> <key> <end> <startrev>   -> watch <id> created
+//       startrev < 0 is the range-stream shape (watcher.List): with an empty key or range_end (`-`) it must be
+//       cancelled at once (`wevents` then shows `- canceled=1 compact=1`); on `cfg engine=tikv regions=<hex,hex>` the
+//       unvalidated request crashed the process before /repo 5b8c053
+//   bcompact <rev>                      -> bcompact <compacted revision> | bcompact err <class>
+//       the node's OWN compaction (backend.Compact: raises the compaction floor; the etcd Compact RPC below is a no-op)
 //   wevents <id> [want=<n>]             -> wevents <id> <P:k:v@mod/prevkv,D:k:-@mod/k:v@mod,...|-> canceled=<0|1> compact=<n>
 //   wcancel <id>                        -> wcancel <id>
 //   put <key> <val> / delrange <key> <end> / compact <rev>  (the plain KV methods)
@@ -404,6 +413,7 @@ type memStream struct {
 	canceled  bool
 	compact   int64
 	delivered int
+	ended     bool // range-stream shape: the terminator (header revision -1) has arrived, nothing more will come
 }
 
 func (m *memStream) Send(r *etcdserverpb.WatchResponse) error {
@@ -485,8 +495,9 @@ func (s *etcdSuite) doWatch(pos []string) string {
 	// the registration with the backend (backend.Watch: subscribe to the hub, then read the event cache)
 	// happens asynchronously after the `created` response; what it finds in the cache depends on the
 	// writes done so far, so wait until it has happened (or the watch was refused without reaching it)
+	registered := false
 	for time.Now().Before(deadline) {
-		registered := atomic.LoadInt64(&s.cacheRead) > read0
+		registered = atomic.LoadInt64(&s.cacheRead) > read0
 		if cr.StartRevision == 0 {
 			registered = atomic.LoadInt64(&s.subscribed) > sub0
 		}
@@ -495,12 +506,20 @@ func (s *etcdSuite) doWatch(pos []string) string {
 			if r.Canceled {
 				registered = true
 			}
+			if cr.StartRevision < 0 && r.Header != nil && r.Header.Revision == -1 {
+				// range-stream shape (watcher.List): no registration with the hub; the request has been dealt
+				// with once it was refused (cancel, above) or the stream has sent its terminator (header -1)
+				registered = true
+			}
 		}
 		m.mu.Unlock()
 		if registered {
 			break
 		}
 		time.Sleep(200 * time.Microsecond)
+	}
+	if !registered {
+		s.expired()
 	}
 	return "watch " + id + " created"
 }
@@ -534,6 +553,9 @@ func (s *etcdSuite) doWevents(id string, opts map[string]string) string {
 				m.canceled = true
 				m.compact = r.CompactRevision
 			}
+			if r.Header != nil && r.Header.Revision == -1 {
+				m.ended = true
+			}
 			for _, e := range r.Events {
 				evs = append(evs, etcdEvStr(e))
 			}
@@ -541,7 +563,9 @@ func (s *etcdSuite) doWevents(id string, opts map[string]string) string {
 		if len(rs) > 0 {
 			continue
 		}
-		satisfied := want >= 0 && len(evs) >= want && (!wantCancel || m.canceled)
+		// (a streamed range that has sent its terminator will neither send more nor be cancelled: waiting for an
+		// expected cancel would only run into the deadline)
+		satisfied := want >= 0 && len(evs) >= want && (!wantCancel || m.canceled || m.ended)
 		if !satisfied && want >= 0 && !time.Now().Before(deadline) {
 			s.expired()
 		}
@@ -610,6 +634,15 @@ func (s *etcdSuite) do(t []string) string {
 			return "compact err " + classifyEtcd(err)
 		}
 		return fmt.Sprintf("compact hdr=%d", hdrRev(resp.Header))
+	case "bcompact":
+		if s.c != nil || len(pos) < 2 {
+			return "bcompact bad-op"
+		}
+		resp, err := s.b.Compact(ctx, atou(pos[1]))
+		if err != nil {
+			return "bcompact err " + classify(err)
+		}
+		return fmt.Sprintf("bcompact %d", resp.Header.Revision)
 	case "gated":
 		if s.c == nil || len(pos) < 2 {
 			return "gated bad-op"
